@@ -1,6 +1,7 @@
 (* C16 - prelude functions and macros compute what their documentation says.
    Only statements; proofs in Eval/PreludeProofs.v. *)
-From PL Require Import Eval.EvalRules Eval.PreludeState Eval.PreludeProofs Eval.CatchProofs.
+From PL Require Import Eval.EvalRules Eval.PreludeState Eval.PreludeProofs Eval.CatchProofs Eval.LengthProofs Eval.RangeProofs Eval.FoldProofs Eval.MapProofs Eval.ZipProofs.
+From Coq Require Import ZArith.
 From Coq Require Import String.
 Local Open Scope string_scope.
 Local Open Scope list_scope.
@@ -54,3 +55,56 @@ Print Assumptions C16_get_property_safe_signal.
 Theorem C16_dot_is_the_primitive : forall f st pl key env d, call_native (S f) st (s ".") [pl; key] env d = (st, dot_res pl key).
 Proof. exact dot_call. Qed.
 Print Assumptions C16_dot_is_the_primitive.
+
+(* ---- the list functions, for EVERY list (any length, any elements), on the generated prelude text ---- *)
+
+(* length: the number of elements *)
+Theorem C16_length : forall xs, in_i64 (Z.of_nat (List.length xs)) = true -> length_statement xs.
+Proof. exact length_spec. Qed.
+Print Assumptions C16_length.
+
+(* range: 0 1 ... m-1 for every m >= 0, the empty list for every negative m *)
+Theorem C16_range_nonneg : forall mv k, getv mv = VNum (Z.of_nat k) -> in_i64 (Z.of_nat k) = true -> range_statement mv (upto k nil_value).
+Proof. exact range_spec_nonneg. Qed.
+Print Assumptions C16_range_nonneg.
+
+Theorem C16_range_negative : forall mv m, getv mv = VNum m -> (m < 0)%Z -> in_i64 (m - 1)%Z = true -> range_statement mv nil_value.
+Proof. exact range_spec_negative. Qed.
+Print Assumptions C16_range_negative.
+
+(* foldl: the left fold, for every function whose applications evaluate (to [step acc x]) *)
+Theorem C16_foldl : forall fv step K, (4 <= K)%nat ->
+  (forall acc x r d, (d + 3 <= MAXD)%N -> evals_to K fl_step (fl_env fv acc (VCons x r)) (d + 1)%N (step acc x)) ->
+  forall tl, is_nil tl = true -> forall xs acc g st d, has_prelude st -> (d + 3 <= MAXD)%N ->
+  exists st', eval_loop (2 * List.length xs + K + 4 + g) st fl_body (fl_env fv acc (onto xs tl)) pm d
+              = (st', ROk (fold_left step xs acc)) /\ has_prelude st'.
+Proof. exact foldl_runs. Qed.
+Print Assumptions C16_foldl.
+
+(* reverse *)
+Theorem C16_reverse : forall xs tl, is_nil tl = true -> reverse_statement xs tl.
+Proof. exact reverse_spec. Qed.
+Print Assumptions C16_reverse.
+
+(* map: the results in order, for every function whose applications evaluate (to [g x]) *)
+Theorem C16_map : forall fv g K, (2 <= K)%nat ->
+  (forall x r acc d, (d + 4 <= MAXD)%N -> evals_to K mm_app (mm_env fv (VCons x r) acc) (d + 1 + 1)%N (g x)) ->
+  forall tl xs st d, is_nil tl = true -> has_prelude st -> (d + 5 <= MAXD)%N ->
+  exists fuel st' r, eval_loop fuel st mp_body (mp_env fv (onto xs tl)) pm d = (st', ROk r) /\ has_prelude st' /\
+                     strip r = strip (vec_to_list (map g xs)).
+Proof. exact map_runs. Qed.
+Print Assumptions C16_map.
+
+(* the hypotheses about the function are satisfiable: the primitive `list` as f *)
+Theorem C16_map_instance : forall xs st d, has_prelude st -> (d + 5 <= MAXD)%N ->
+  exists fuel st' r, eval_loop fuel st mp_body (mp_env list_native (vec_to_list xs)) pm d = (st', ROk r) /\ has_prelude st' /\
+                     strip r = strip (vec_to_list (map (fun x => vec_to_list [x]) xs)).
+Proof. exact map_list_instance. Qed.
+Print Assumptions C16_map_instance.
+
+(* zip: the pairs of corresponding elements, as many as the shorter list has, for every two lists *)
+Theorem C16_zip : forall tl1 tl2 xs ys st d, is_nil tl1 = true -> is_nil tl2 = true -> has_prelude st -> (d + 5 <= MAXD)%N ->
+  exists fuel st' r, eval_loop fuel st zp_body (zp_env (onto xs tl1) (onto ys tl2)) pm d = (st', ROk r) /\ has_prelude st' /\
+                     strip r = strip (vec_to_list (map pair_of (combine xs ys))).
+Proof. exact zip_runs. Qed.
+Print Assumptions C16_zip.
